@@ -1,6 +1,7 @@
 package props
 
 import (
+	"bytes"
 	"context"
 	"encoding/json"
 	"flag"
@@ -28,7 +29,7 @@ func init() {
 	register(&Prop{
 		ID:  "C05",
 		Run: runC05,
-		Rule: "one case = a random core tree (<= 12 nodes, depth <= 4: observer and IO leaves with static, shared-AtomicLevel or arbitrary 256-bit-set enablers under tee / increase-level / hooks / pass-all sampler / lazy-with / With nodes) under a Logger with sugared, slog and gRPC views, and a history of <= 24 operations (log at any of 256 level values through a drawn front end with a counting marshaler, Enabled/Level/LevelOf/V queries, changes of shared AtomicLevels through SetLevel, UnmarshalText, JSON decoding, flag.TextVar and the HTTP PUT handler), executed by 1 task (exact history semantics) or 2-3 tasks with level changes racing log calls under a seeded schedule; " +
+		Rule: "one case = a random core tree (<= 12 nodes, depth <= 4: observer and IO leaves with static, shared-AtomicLevel or arbitrary 256-bit-set enablers under tee / increase-level / hooks / pass-all sampler / lazy-with / With nodes; in a quarter of the runs some IO destinations refuse every write and some hooks report errors) under a Logger with sugared, slog and gRPC views, and a history of <= 24 operations (log at any of 256 level values through a drawn front end with a counting marshaler, Enabled/Level/LevelOf/V queries, changes of shared AtomicLevels through SetLevel, UnmarshalText, JSON decoding, flag.TextVar and the HTTP PUT handler), executed by 1 task (exact history semantics) or 2-3 tasks with level changes racing log calls under a seeded schedule; " +
 			"non-trivial = the tree has at least 3 nodes and at least one entry was delivered and one suppressed; distinct = distinct hash of (tree shape, scheduling decisions, sequence of (level, delivery set))",
 		Real: []string{"zap.Logger.check and all front ends, SugaredLogger, zapslog.Handler, zapgrpc.Logger", "zapcore ioCore, multiCore (tee), levelFilterCore, hooked, sampler, lazyWithCore, LevelOf", "zap.AtomicLevel", "zaptest/observer"},
 		Stub: []string{"IO leaf sinks (zsim.SimSink)", "hooks (counting)", "marshaler (counting)", "clock"},
@@ -91,6 +92,7 @@ type c5node struct {
 	core zapcore.Core
 	logs *observer.ObservedLogs
 	sink *zsim.SimSink
+	rec  *bytes.Buffer // failing device: what it was handed
 	// hook bookkeeping: message -> calls
 	hookCalls map[string]int
 	// lazy-with nodes: how often their deferred fields were marshaled
@@ -115,6 +117,7 @@ type c5world struct {
 	hooks   []*c5node
 	hasIncr bool
 	marsh   map[string]int // message -> MarshalLogObject calls
+	faulty  bool           // some destinations refuse their writes, some hooks report errors
 }
 
 type c5marsh struct {
@@ -306,7 +309,17 @@ func (w *c5world) build(n *c5node, frag int) zapcore.Core {
 		n.core, n.logs = observer.New(w.enabler(n.enab))
 	case c5LeafIO:
 		n.sink = zsim.NewSimSink(c.R, fmt.Sprintf("leaf%d", n.id), frag, uint64(n.id)+7)
-		n.core = zapcore.NewCore(zapcore.NewJSONEncoder(encCfg()), zapcore.Lock(n.sink), w.enabler(n.enab))
+		var ws zapcore.WriteSyncer = n.sink
+		if w.faulty && c.F.Chance(2) {
+			// a device that refuses every write: what it was handed is recorded
+			// (that is the delivery being judged), the failure must not keep the
+			// entry from any other destination or hook
+			n.sink.FailFrom = 1
+			n.rec = &bytes.Buffer{}
+			ws = c5recording{n.sink, n.rec}
+			c.Fault("failing-destination")
+		}
+		n.core = zapcore.NewCore(zapcore.NewJSONEncoder(encCfg()), zapcore.Lock(ws), w.enabler(n.enab))
 	case c5Tee:
 		var cs []zapcore.Core
 		for _, k := range n.kids {
@@ -338,7 +351,12 @@ func (w *c5world) build(n *c5node, frag int) zapcore.Core {
 	case c5Hooks:
 		child := w.build(n.kids[0], frag)
 		nn := n
-		n.core = zapcore.RegisterHooks(child, func(e zapcore.Entry) error { nn.hookCalls[e.Message]++; return nil })
+		var hookErr error
+		if w.faulty && c.F.Chance(2) {
+			hookErr = fmt.Errorf("hook of node %d reports a failure", n.id)
+			c.Fault("failing-hook")
+		}
+		n.core = zapcore.RegisterHooks(child, func(e zapcore.Entry) error { nn.hookCalls[e.Message]++; return hookErr })
 	case c5Sampler:
 		child := w.build(n.kids[0], frag)
 		n.core = zapcore.NewSamplerWithOptions(child, time.Second, 1<<30, 0, zapcore.SamplerHook(func(e zapcore.Entry, d zapcore.SamplingDecision) {
@@ -387,6 +405,17 @@ func c5set(a zap.AtomicLevel, l zapcore.Level, via int) {
 	}
 }
 
+// c5recording records what a failing device was handed.
+type c5recording struct {
+	*zsim.SimSink
+	rec *bytes.Buffer
+}
+
+func (r c5recording) Write(p []byte) (int, error) {
+	r.rec.Write(p)
+	return r.SimSink.Write(p)
+}
+
 type c5noopHook struct{}
 
 func (c5noopHook) OnWrite(*zapcore.CheckedEntry, []zapcore.Field) {}
@@ -419,6 +448,7 @@ var c5interesting = []zapcore.Level{-1, 0, 1, 2, 3, 4, 5, -2, 6, 7, -128, 127, -
 func runC05(c *Ctx) {
 	g, r := c.G, c.R
 	w := &c5world{c: c, marsh: map[string]int{}}
+	w.faulty = c.F.Chance(4)
 	nAtoms := 1 + g.Draw(3)
 	for i := 0; i < nAtoms; i++ {
 		lv := zapcore.Level(g.Draw(9) - 2)
@@ -688,7 +718,11 @@ func runC05(c *Ctx) {
 			if lf.logs != nil {
 				out[lf.id] = lf.logs.FilterMessage(msg).Len()
 			} else {
-				out[lf.id] = strings.Count(string(lf.sink.Data), `"msg":"`+msg+`"`)
+				data := lf.sink.Data
+				if lf.rec != nil {
+					data = lf.rec.Bytes()
+				}
+				out[lf.id] = strings.Count(string(data), `"msg":"`+msg+`"`)
 			}
 		}
 		return out
